@@ -134,7 +134,7 @@ impl Prop for C08 {
         "C08"
     }
     fn rule(&self) -> String {
-        "eight complete families (incl. flat repetition: 15 kinds of list of 16 / 256 / 4096 / 65536 items — doubled quotes, string digits, enumerals, components, arcs, assignments, comments …), both backends, every case in a worker subprocess with a 10 s watchdog, 8 MiB stack, 6 GiB address-space cap; compile + Display + contextualize of every error and warning: (1) all sequences of <=L tokens (quick 3, thorough 4) over a 40-token alphabet as whole input / module body / after `A ::=`; (2) every byte prefix of the 35 feature modules, token-boundary prefixes of the smallest real-world modules, and every single-token edit (delete, duplicate, swap, replace by / insert each of the 40 tokens) at every token position of the feature modules (thorough: + 30 real-world modules); (3) é/€/𝄞 inserted at every character position of the feature modules; (4) every feature module left inside an unterminated comment (line, block depth 1..3), cstring, bstring, brace, parenthesis, version bracket; (5) all functional reference graphs on 3 nodes over 8 edge kinds (alias, constrained alias, COMPONENTS OF, member, OF element, selection, CHOICE alternative, parameterized instantiation) with/without a value of the first type, nesting depth 2^k (quick <=4096, thorough <=65536) for 14 bracket-like recursions, and 16 parsed-but-unsupported notations in 6 positions; (6) boundary numbers: 18 number positions of the grammar (enumeration item / addition, named number, named bit, range ends, size, tag, OID arc, value, DEFAULT, version number) x 12 machine-word boundaries (i128/i64/u64/u32 extremes and their neighbours, -1, 0); (7) every feature module (thorough: + real-world modules) under each non-default generator option {non-opaque open types, From impls, no_std, wildcard imports} and all together. Oracle: the worker answers within the watchdog with a non-panic outcome. Non-trivial: the input reached the compiler and a verdict came back.".into()
+        "eight complete families (incl. flat repetition: 15 kinds of list of 16 / 256 / 4096 / 65536 items — doubled quotes, string digits, enumerals, components, arcs, assignments, comments …), both backends, every case in a worker subprocess with a 10 s watchdog, 8 MiB stack, 6 GiB address-space cap; compile + Display + contextualize of every error and warning: (1) all sequences of <=L tokens (quick 3, thorough 4) over a 40-token alphabet as whole input / module body / after `A ::=`; (2) every byte prefix of the 37 feature modules, token-boundary prefixes of the smallest real-world modules, and every single-token edit (delete, duplicate, swap, replace by / insert each of the 40 tokens) at every token position of the feature modules (thorough: + 30 real-world modules); (3) é/€/𝄞 inserted at every character position of the feature modules; (4) every feature module left inside an unterminated comment (line, block depth 1..3), cstring, bstring, brace, parenthesis, version bracket; (5) all functional reference graphs on 3 nodes over 8 edge kinds (alias, constrained alias, COMPONENTS OF, member, OF element, selection, CHOICE alternative, parameterized instantiation) with/without a value of the first type, nesting depth 2^k (quick <=4096, thorough <=65536) for 14 bracket-like recursions, and 16 parsed-but-unsupported notations in 6 positions; (6) boundary numbers: 23 number positions of the grammar (enumeration item / addition, named number, named bit, range ends, size, tag, OID arc, value, DEFAULT, version number, REAL value / DEFAULT / range / mantissa-base-exponent) x 19 boundaries (i128/i64/u64/u32 extremes and their neighbours, -1, 0, beyond i128, 10^400 and its negative, real numbers with exponents beyond f64); (7) every feature module (thorough: + real-world modules) under each non-default generator option {non-opaque open types, From impls, no_std, wildcard imports} and all together. Oracle: the worker answers within the watchdog with a non-panic outcome. Non-trivial: the input reached the compiler and a verdict came back.".into()
     }
     fn assumptions(&self) -> Vec<String> {
         vec!["panic keys are file::function (resolved with syn from the panic Location) + message class; crashes/hangs are keyed by the input-shape label".into()]
@@ -650,7 +650,15 @@ impl Prop for C08 {
             }
         }
         // (6) boundary numbers: every position of the grammar that holds a number x every machine-word boundary
-        let boundaries: [(&str, String); 12] = [
+        let boundaries: [(&str, String); 19] = [
+            // beyond every machine word, beyond f64, and the real-number spellings of the same
+            ("i128max+1", "170141183460469231731687303715884105728".to_string()),
+            ("i128min-1", "-170141183460469231731687303715884105729".to_string()),
+            ("huge", format!("1{}", "0".repeat(400))),
+            ("minus-huge", format!("-1{}", "0".repeat(400))),
+            ("real-huge-exp", "1.0E400".to_string()),
+            ("real-tiny-exp", "-1.5e-400".to_string()),
+            ("real-plain", "12.5".to_string()),
             ("i128max", i128::MAX.to_string()),
             ("i128max-1", (i128::MAX - 1).to_string()),
             ("i128min", i128::MIN.to_string()),
@@ -664,7 +672,12 @@ impl Prop for C08 {
             ("minus1", "-1".to_string()),
             ("zero", "0".to_string()),
         ];
-        let positions: [(&str, &str); 18] = [
+        let positions: [(&str, &str); 23] = [
+            ("real-default", "Sx ::= SEQUENCE { a REAL DEFAULT # }"),
+            ("real-value", "a REAL ::= #"),
+            ("real-range", "Ax ::= REAL (0..#)"),
+            ("real-mbe-default", "Sx ::= SEQUENCE { a REAL DEFAULT { mantissa #, base 10, exponent # } }"),
+            ("real-in-seq-value", "Sx ::= SEQUENCE { a REAL }\nv Sx ::= { a # }"),
             ("enum-item", "Ax ::= ENUMERATED { a(#), b }"),
             ("enum-item-last", "Ax ::= ENUMERATED { a, b(#), c }"),
             ("enum-addition", "Ax ::= ENUMERATED { a, ..., b(#) }"),
